@@ -84,6 +84,10 @@ def gen_spec(rng):
             'comment_block': rng.random() < 0.85, 'reference_block': rng.random() < 0.5,
             'header_trailing': rng.choice(['', '', ' ', '      ']), 'pad_lines': rng.random() < 0.2,
             'extra_blocks': rng.random() < 0.3,
+            # comment lines are legal anywhere in a SINEX file: other spellings of the column-header
+            # comments (as written by other analysis centres) and extra comment lines inside blocks
+            'alt_comments': rng.random() < 0.25, 'inner_comments': rng.choice([0, 0, 0, 1, 2, 5]),
+            'inner_seed': rng.getrandbits(32),
             'comments': rng.sample(['* combined solution', '* minimum constraint', 'free text V V V 00006', '*'], rng.randrange(0, 4))}
 
 
@@ -244,6 +248,21 @@ def write_sinex(spec, sol=None):
             L.append(' %5d %5d %s' % (i + 1, i + 1, fe(1.0)))
         L += ['-SOLUTION/MATRIX_APRIORI %s COVA' % sol.triangle]
     L += ['%ENDSNX']
+    if spec.get('alt_comments'):
+        alt = {SITE_COMMENT: '*SITE PT __DOMES__ T _STATION DESCRIPTION__ APPROX_LON_ APPROX_LAT_ _APP_H_',
+               EPOCH_COMMENT: '*SITE PT SOLN T _DATA_START_ __DATA_END__ _MEAN_EPOCH_',
+               EST_COMMENT: '*INDEX _TYPE_ CODE PT SOLN _REF_EPOCH__ UNIT S ___ESTIMATED_VALUE___ __STD_DEV__',
+               MAT_COMMENT: '*PARA1 PARA2 _______PARA2+0_______ _______PARA2+1_______ _______PARA2+2_______'}
+        L = [alt.get(l, l) for l in L]
+    if spec.get('inner_comments'):
+        r = random.Random(spec.get('inner_seed', 0))
+        for _ in range(spec['inner_comments']):
+            # after some data line inside a block (never before a block's title or after its terminator)
+            cands = [k for k in range(2, len(L) - 1) if L[k].startswith(' ') and not L[k + 1].startswith('+')]
+            if not cands:
+                break
+            k = r.choice(cands)
+            L.insert(k + 1, r.choice(['* comment inserted by the analysis centre', '*', '*-----------------', '* V V V 00006 VELX STAX']))
     if spec.get('pad_lines'):
         # Fortran-style fixed-length records: every line blank-padded to 80 columns
         L = [L[0]] + [l.ljust(80) if len(l) < 80 and l != '%ENDSNX' else l for l in L[1:]]
